@@ -299,6 +299,7 @@ type fxStreamStats struct{ Packets, Nacks, Bytes uint64 }
 type sStats struct {
 	fxStreamStats
 	internal int
+	sentRefs []uint32
 	Lost     int64
 	Jitter   float64
 	Fraction float64
